@@ -26,28 +26,52 @@ import (
 
 func init() {
 	tableDumpers["abmfserver"] = func() {
-		file := filepath.Join(repoRoot(), "pkg", "abmf", "abmf.go")
+		// the handler is found by what it does, not by its name or file: the innermost function body (declaration or literal) of
+		// package pkg/abmf among whose own statements the account is read from the store
+		dir := filepath.Join(repoRoot(), "pkg", "abmf")
 		fset := token.NewFileSet()
-		f, err := parser.ParseFile(fset, file, nil, 0)
+		pkgs, err := parser.ParseDir(fset, dir, func(fi os.FileInfo) bool { return !strings.HasSuffix(fi.Name(), "_test.go") }, 0)
 		if err != nil {
 			fmt.Fprintln(os.Stderr, "ast:", err)
 			os.Exit(1)
 		}
 		lockBeforeRead, heldToReturn, perAccount, readsAndWrites := false, false, false, false
-		for _, d := range f.Decls {
-			fd, ok := d.(*ast.FuncDecl)
-			if !ok || fd.Body == nil || fd.Name.Name != "handleCCR" {
-				continue
+		var bodies []*ast.BlockStmt
+		for _, p := range pkgs {
+			for _, f := range p.Files {
+				ast.Inspect(f, func(n ast.Node) bool {
+					switch x := n.(type) {
+					case *ast.FuncDecl:
+						if x.Body != nil {
+							bodies = append(bodies, x.Body)
+						}
+					case *ast.FuncLit:
+						bodies = append(bodies, x.Body)
+					}
+					return true
+				})
 			}
-			// the handler proper: the function literal handleCCR returns (or its own body)
-			var body *ast.BlockStmt = fd.Body
-			ast.Inspect(fd.Body, func(n ast.Node) bool {
-				if lit, ok := n.(*ast.FuncLit); ok && body == fd.Body {
-					body = lit.Body
-					return false
+		}
+		callsIn := func(n ast.Node, name string) bool {
+			found := false
+			ast.Inspect(n, func(k ast.Node) bool {
+				if c, ok := k.(*ast.CallExpr); ok && strings.HasSuffix(exprStr(c.Fun), name) {
+					found = true
 				}
 				return true
 			})
+			return found
+		}
+		var handler *ast.BlockStmt
+		for _, b := range bodies {
+			if callsIn(b, "RestfulAPIGetOne") && (handler == nil || (b.Pos() >= handler.Pos() && b.End() <= handler.End())) {
+				handler = b
+			}
+		}
+		for _, body := range []*ast.BlockStmt{handler} {
+			if body == nil {
+				continue
+			}
 			contains := func(n ast.Node, name string) bool {
 				found := false
 				ast.Inspect(n, func(k ast.Node) bool {
